@@ -204,6 +204,15 @@ def parse_if(toks, i, fname):
     line = toks[i].line
     j = i + 1
     depth = 0
+    if toks[j].text == "let":
+        # `if let PATTERN = EXPR {`: the pattern may contain braces; skip to the `=` first
+        d2 = 0
+        while not (toks[j].text == "=" and d2 == 0):
+            if toks[j].text in CLOSE:
+                d2 += 1
+            elif toks[j].text in CLOSE.values():
+                d2 -= 1
+            j += 1
     while not (toks[j].text == "{" and depth == 0):
         if toks[j].text in ("(", "["):
             depth += 1
